@@ -36,6 +36,8 @@ def case(arg):
     ops = L.gen_ops(random.Random(seed), X.base_kind(kn), nops)
     extra = 0
     failed_asks = [0]
+    l2d_stack = [0]
+    l2d_order = [0]
 
     def fail(cl, det, i, op):
         return {"kind": kn, "seed": seed, "nops": nops, "fail": (cl, f"[{kn}] op {i} {op}: {det}"), "extra": extra}
@@ -51,6 +53,7 @@ def case(arg):
                     n = rng.choice([8, 12, 30])  # more than a finite learner may have left: the request may fail
                 if True:
                     before = obs(kn, a)
+                    stack0 = _stacks(kn, a) if kn.split(":")[-1] == "l2d" else None
                     try:
                         r1 = a.ask(n, tell_pending=False)
                     except Exception as e1:  # noqa: BLE001
@@ -78,11 +81,27 @@ def case(arg):
                       r2 = a.ask(n, tell_pending=False)
                       extra += 1
                       if L.canon(r1) != L.canon(r2):
-                          return fail("repeat_differs", f"ask({n}, False) twice gave {r1[0]} then {r2[0]}", i, op)
+                          if kn.split(":")[-1] == "l2d" and stack0 is not None and stack0 != _stacks(kn, a):
+                              # the first call rewrote the suggestion stack, the second one served from it (known mechanism)
+                              l2d_stack[0] += 1
+                              r1 = r2
+                          else:
+                              return fail("repeat_differs", f"ask({n}, False) twice gave {r1[0]} then {r2[0]}", i, op)
                       after = obs(kn, a)
                       if before != after:
                           d = [k for k in before if before[k] != after[k]]
-                          return fail("state_changed", f"ask({n}, False) changed {d}", i, op)
+                          if not (stack0 is not None and stack0 != _stacks(kn, a) and set(d) <= {"lossT", "lossF"}):
+                              return fail("state_changed", f"ask({n}, False) changed {d}", i, op)
+                          # Learner2D: the rewritten stack is cut to stack_size entries; never evaluated corner points
+                          # re-queued behind it are dropped and bounds_are_done / loss() change (same known mechanism)
+                      if kn.split(":")[-1] == "l2d" and X.sync_l2d_stacks(kn, a, b):
+                          # known mechanism (finding l2d_stack_cache): the non-committing ask rewrote Learner2D's private
+                          # suggestion stack.  Counted; the twin gets the same stack so that any OTHER effect stays visible.
+                          l2d_stack[0] += 1
+                      if kn.split(":")[-1] == "l2d" and X.sync_l2d_pending_order(kn, a, b):
+                          # known mechanism (finding l2d_pending_set_order): marking and unmarking points changed the
+                          # iteration order of the pending hash set
+                          l2d_order[0] += 1
                       if len(r1[0]) != n and kn.split(":")[-1] != "seq":
                           return fail("count", f"ask({n}, False) returned {len(r1[0])} points", i, op)
                       if rng.random() < 0.4:
@@ -95,7 +114,7 @@ def case(arg):
             if act[0] == "ask":
                 ra, rb = r.ask(act[1], act[2])
                 if L.canon(ra) != L.canon(rb):
-                    return fail("twin_answers", f"later ask({act[1]}, {act[2]}) answers differ: {ra[0]} vs twin {rb[0]}", i, op)
+                    return fail("twin_answers", f"later ask({act[1]}, {act[2]}) answers differ: {ra} vs twin {rb}", i, op)
             elif act[0] == "tell":
                 r.tell(act[1])
             elif act[0] == "retell":
@@ -125,7 +144,12 @@ def case(arg):
         if oa != ob:
             d = [k for k in oa if oa[k] != ob[k]]
             return fail("twin_state", f"twins differ in {d} (A received {extra} non-committing asks)", i, op)
-    return {"kind": kn, "seed": seed, "nops": nops, "fail": None, "extra": extra, "failed_asks": failed_asks[0]}
+    return {"kind": kn, "seed": seed, "nops": nops, "extra": extra, "failed_asks": failed_asks[0], "fail": None,
+            "l2d_stack": l2d_stack[0], "l2d_order": l2d_order[0]}
+
+
+def _stacks(kn, l):
+    return [list(x._stack.items()) for x in X.inner_learners(kn, l) if hasattr(x, "_stack")]
 
 
 def _points(kn, l):
@@ -154,11 +178,17 @@ def run(ctx):
         nfailed += r.get("failed_asks", 0)
         if r.get("aborted"):
             aborted[r["kind"] + ":" + r["aborted"]] = aborted.get(r["kind"] + ":" + r["aborted"], 0) + 1
+        for key, sig, what in (("l2d_stack", "C09.later_answers:l2d_stack_cache",
+                                "non-committing ask(s) rewrote Learner2D's private suggestion stack (later answers then come from the rewritten stack)"),
+                               ("l2d_order", "C09.lossF:l2d_pending_set_order",
+                                "non-committing ask(s) changed the iteration order of Learner2D's pending set (loss(real=False) and the "
+                                "improvements are computed from list(pending_points))")):
+            if r.get(key):
+                failures.append({"clause": key, "signature": sig, "detail": f"[{r['kind']}] {r[key]} {what}",
+                                 "replay": {"kind": r["kind"], "seed": r["seed"], "nops": r["nops"]}})
         if r["fail"]:
             cl, det = r["fail"]
             sig = f"C09.{cl}.{r['kind']}"
-            if r["kind"].split(":")[-1] == "l2d" and cl in ("twin_answers", "commit_differs", "repeat_differs"):
-                sig = "C09.later_answers:l2d_stack_cache"
             if r["kind"].split(":")[-1] == "l2d" and cl in ("twin_state", "state_changed") and "['lossF']" in det:
                 sig = "C09.lossF:l2d_pending_set_order"
             failures.append({"clause": cl, "signature": sig, "detail": det,
